@@ -284,6 +284,7 @@ def _worker(args):
                     )
         out = stats.result()
         out["enum_done"] = enum_done
+        out["failure_shard"] = {k: shard for k in out["failures"]}
         return out
     except BaseException as e:  # noqa
         return dict(
@@ -418,14 +419,47 @@ def _slug(s):
     return "".join(c if c.isalnum() or c in "-_." else "_" for c in s)[:80]
 
 
-def write_replay(mod, kind, case, detail):
+def _replay_in_fresh_interpreter(mod, case):
+    import subprocess
+    import tempfile
+
+    with tempfile.NamedTemporaryFile("w", suffix=".json", delete=False, dir=os.path.join(VERIF, "replays")) as f:
+        json.dump(dict(case=case), f, default=repr)
+        tmp = f.name
+    try:
+        p = subprocess.run([sys.executable, os.path.join(VERIF, "run.py"), mod.ID, "--replay", tmp],
+                           stdout=subprocess.PIPE, stderr=subprocess.STDOUT, cwd=VERIF, timeout=1800)
+        return p.returncode == 1 and b"VIOLATION" in p.stdout
+    except Exception:  # noqa
+        return False
+    finally:
+        os.unlink(tmp)
+
+
+def _shard_replay_finds(modname, tier, seed, shard, nshards, kind):
+    import subprocess
+
+    env = dict(os.environ, PYTHONHASHSEED="0", PYTHONDONTWRITEBYTECODE="1")
+    try:
+        p = subprocess.run([sys.executable, "-m", "eglib.shardreplay", modname, tier, str(seed), str(shard), str(nshards)],
+                           stdout=subprocess.PIPE, stderr=subprocess.STDOUT, cwd=VERIF, env=env, timeout=3600)
+    except Exception:  # noqa
+        return False
+    for line in p.stdout.decode(errors="replace").splitlines():
+        if line.startswith("SHARDREPLAY "):
+            return kind in json.loads(line[len("SHARDREPLAY "):])["kinds"]
+    return False
+
+
+def write_replay(mod, kind, case, detail, shard_info=None):
     d = os.path.join(VERIF, "replays", mod.ID)
     os.makedirs(d, exist_ok=True)
     h = "%016x" % case_hash(case)
     path = os.path.join(d, f"{_slug(kind)}-{h[:10]}.json")
     with open(path, "w") as f:
         json.dump(
-            dict(property=mod.ID, kind=kind, detail=repr(detail)[:2000], case=case),
+            dict(property=mod.ID, kind=kind, detail=repr(detail)[:2000], case=case,
+                 **({"shard_replay": shard_info, "note": "history-dependent: this case fails only after the cases that precede it in its shard (state kept by the library between cases); --replay re-runs that shard in a fresh interpreter"} if shard_info else {})),
             f,
             indent=1,
             default=repr,
@@ -436,6 +470,14 @@ def write_replay(mod, kind, case, detail):
 def run_replay(modname, path):
     mod = _load(modname)
     data = json.load(open(path))
+    if isinstance(data, dict) and data.get("shard_replay"):
+        sr = data["shard_replay"]
+        if _shard_replay_finds(sr["check"], sr["tier"], sr["seed"], sr["shard"], sr["nshards"], sr["kind"]):
+            print(f"VIOLATION property={mod.ID} replay={path}")
+            print(f"  kind={sr['kind']} (history-dependent; reproduced by re-running shard {sr['shard']} of {sr['nshards']}, seed {sr['seed']}, tier {sr['tier']})")
+            return 1
+        print(f"replay: property {mod.ID} holds on the shard described by {path}")
+        return 0
     case = data["case"] if isinstance(data, dict) and "case" in data else data
     stats = Stats(mod)
     stats.run(case, "replay", reraise=False)
@@ -502,6 +544,7 @@ def main(modname, tier, seed):
                 json.dumps(old[0], default=repr)
             ):
                 merged["failures"][k] = (case, detail)
+                merged.setdefault("failure_shard", {})[k] = r.get("failure_shard", {}).get(k)
         merged["harness_errors"].extend(r["harness_errors"])
         merged["by_phase"].update(r["by_phase"])
         enum_done = enum_done and r.get("enum_done", True)
@@ -579,12 +622,22 @@ def main(modname, tier, seed):
             confirmed = bool(st2.failures)
             if st2.harness_errors:
                 merged["harness_errors"].extend(st2.harness_errors)
+        shard_info = None
+        if not confirmed:
+            # the verdict may depend on state the library keeps between cases: try a fresh interpreter on the case
+            # alone, then re-run the whole shard that produced it (deterministic given code, tier, seed, shard)
+            confirmed = _replay_in_fresh_interpreter(mod, case)
+            if not confirmed:
+                sh = merged.get("failure_shard", {}).get(kind)
+                if sh is not None and _shard_replay_finds(modname, tier, seed, sh, nshards, kind):
+                    confirmed = True
+                    shard_info = dict(check=modname, tier=tier, seed=seed, shard=sh, nshards=nshards, kind=kind)
         if not confirmed:
             merged["harness_errors"].append(
                 f"failure kind={kind} did not reproduce on replay (flaky oracle?): {detail}"
             )
             continue
-        path = write_replay(mod, kind, case, detail)
+        path = write_replay(mod, kind, case, detail, shard_info)
         violations += 1
         out_lines.append(f"VIOLATION property={mod.ID} replay={path}")
         out_lines.append(f"  kind={kind} detail={str(detail)[:400]}")
